@@ -18,6 +18,7 @@ pub mod c15;
 pub mod c16;
 pub mod c17;
 pub mod c18;
+pub mod c19;
 
 pub fn dispatch(id: &str, tier: Tier, seed: u64, extra: &[String]) -> i32 {
     let _ = extra;
@@ -42,6 +43,7 @@ pub fn dispatch(id: &str, tier: Tier, seed: u64, extra: &[String]) -> i32 {
         "C16" => c16::run(&Ctx::new("C16", tier, seed)),
         "C17" => c17::run(&Ctx::new("C17", tier, seed)),
         "C18" => c18::run(&Ctx::new("C18", tier, seed)),
+        "C19" => c19::run(&Ctx::new("C19", tier, seed)),
         _ => {
             eprintln!("unknown check {}", id);
             2
